@@ -388,6 +388,11 @@ class Ranges:
                 lo, hi = max(lo, inner[0]), min(hi, inner[1])
             elif to:
                 lo, hi = max(lo, to[0]), min(hi, to[1])
+        elif k == 'un' and c[1] == 'Neg':
+            a = self._range_canon(c[2], bb, None, use_facts, depth + 1)
+            r = (-a[1], -a[0])
+            if tr is None or (r[0] >= tr[0] and r[1] <= tr[1]):
+                lo, hi = max(lo, r[0]), min(hi, r[1])
         elif k == 'min':
             a = self._range_canon(c[1], bb, None, use_facts, depth + 1)
             b = self._range_canon(c[2], bb, None, use_facts, depth + 1)
